@@ -12,7 +12,7 @@ tvars == <<vars, tid>>
 Rec2(x) == [st |-> x.st, err |-> x.err, salt |-> x.salt, pk |-> x.pk, cut |-> x.cut]
 Rec4(x) == [st |-> x.st, err |-> x.err, proof |-> x.proof, mfi |-> x.mfi, cut |-> x.cut]
 Rec6(x) == [st |-> x.st, err |-> x.err, enc |-> x.enc, key |-> x.key, nonce |-> x.nonce, id |-> x.id, pk |-> x.pk,
-            sigp |-> x.sigp, signer |-> x.signer, info |-> x.info, corrupt |-> x.corrupt, cut |-> x.cut]
+            sigp |-> x.sigp, signer |-> x.signer, info |-> x.info, corrupt |-> x.corrupt, alter |-> x.alter, cut |-> x.cut]
 
 TInit == /\ tid \in 1..Len(Recs)
          /\ m2 = Rec2(Recs[tid].m2)
